@@ -4,12 +4,12 @@ package main
 // plus the rule group "layout" (R07.*, R09.default, R01.case for switch tags).
 
 import (
-	"os"
 	"fmt"
 	"go/ast"
 	"go/constant"
 	"go/token"
 	"go/types"
+	"os"
 	"sort"
 	"strings"
 )
